@@ -1,11 +1,16 @@
 package world
 
 import (
+	"fmt"
 	"reflect"
 	"syscall"
 	"unsafe"
 
+	pedersen "github.com/corestario/kyber/share/dkg/pedersen"
 	"github.com/syndtr/goleveldb/leveldb"
+
+	"github.com/lidofinance/dc4bc/airgapped"
+	"github.com/lidofinance/dc4bc/dkg"
 )
 
 // Neither LevelDBState nor airgapped.Machine nor the key store has a Close(); thousands of worlds
@@ -42,4 +47,39 @@ func RaiseFDLimit() {
 			return
 		}
 	}
+}
+
+// TamperDealerShare reaches into machine m's kyber instance of `round` and replaces the plaintext
+// share it is about to deal to participant index `victim` by a share of another polynomial (share+1),
+// leaving the commitments as broadcast: the classic verifiable-secret-sharing cheat. To be called
+// between the machine's commits and deals steps.
+func TamperDealerShare(m *airgapped.Machine, round string, victim int) (err error) {
+	defer func() {
+		if r := recover(); r != nil {
+			err = fmt.Errorf("tamper: %v", r)
+		}
+	}()
+	f := reflect.ValueOf(m).Elem().FieldByName("dkgInstances")
+	if !f.IsValid() {
+		return fmt.Errorf("Machine has no dkgInstances field")
+	}
+	insts := *(*map[string]*dkg.DKG)(unsafe.Pointer(f.UnsafeAddr()))
+	d, ok := insts[round]
+	if !ok || d == nil {
+		return fmt.Errorf("machine holds no instance for round %s", round)
+	}
+	fi := reflect.ValueOf(d).Elem().FieldByName("instance")
+	if !fi.IsValid() {
+		return fmt.Errorf("dkg.DKG has no instance field")
+	}
+	gen := *(**pedersen.DistKeyGenerator)(unsafe.Pointer(fi.UnsafeAddr()))
+	if gen == nil {
+		return fmt.Errorf("kyber instance not initialised yet")
+	}
+	plain, err := gen.GetDealer().PlaintextDeal(victim)
+	if err != nil {
+		return err
+	}
+	plain.SecShare.V = plain.SecShare.V.Clone().Add(plain.SecShare.V, plain.SecShare.V.Clone().One())
+	return nil
 }
